@@ -122,6 +122,14 @@ macro_rules! declare_storage_n {
                     self.destroyed.clear();
                 }
 
+                /// Verification hook: pre-allocates the event logs so that logging does not reallocate.
+                #[cfg(all(gecs_verif, feature = "events"))]
+                #[doc(hidden)]
+                pub fn __verif_reserve_events(&mut self, additional: usize) {
+                    self.created.reserve(additional);
+                    self.destroyed.reserve(additional);
+                }
+
                 /// Verification hook: overwrites the raw bookkeeping fields of this storage.
                 #[cfg(gecs_verif)]
                 #[doc(hidden)]
